@@ -330,3 +330,16 @@ func sanitizeFile(s string) string {
 	}
 	return r
 }
+
+// dischargeOne runs only the first solver with a short timeout (used for must-be-satisfiable checks).
+func dischargeOne(script, outDir, name string, timeoutS int) (SolverResult, string) {
+	h := scriptHash(script)
+	file := filepath.Join(outDir, sanitizeFile(name)+"-"+h+".smt2")
+	if r, ok := scriptCache.Load("one:" + h); ok {
+		return r.(SolverResult), file
+	}
+	_ = os.WriteFile(file, []byte(script), 0o644)
+	r := runSolver(solvers[0], file, timeoutS)
+	scriptCache.Store("one:"+h, r)
+	return r, file
+}
